@@ -7,7 +7,7 @@ from ..prims import requires, guard_strs, must_pass
 EXPLANATION = ('Structural necessary conditions of exactly-once resolution: one-shot handler type and its only readers; '
                'the only writers of the operation table; removal implies delivery on every CFG path; per-handler '
                'acknowledgement routing guards; post-write placement; conservation of drained containers at connection '
-               'close; reset fails every operation before clearing and clears every tracking field.')
+               'close; reset fails every operation before clearing and clears every tracking field. Added in round 2: no engine function reads a local container after draining it; nothing is inserted at close into the high-priority queue, whose retained half is discarded by the same handler (defect 6b).')
 ASSUMPTIONS = ['not decided: exactly-once over all interleavings of events (acks racing timeouts, mid-encode disconnects); '
                'the rules are necessary conditions on every path/site, not a proof of the history property']
 
@@ -106,8 +106,8 @@ def run(ctx):
         ctx.ob(bool(dcalls), 'completion point %s calls a deliverer' % short(v.path), 'deliver-call|%s' % short(v.path), loc=m.loc())
         removed = show(('call', m.cs.nfn, tuple(m.cs.arg(i) for i in range(len(m.cs.args))), m.cs.bb))
         # accepted bypass edges
-        bypass = prims.edge_nodes_matching(v, [r'^Option::is_none\(' + re.escape(removed) + r'\)$',
-                                               r'^Option::is_none\(.*\.options\)$', r'\.options is None$'])
+        bypass = prims.edge_nodes_matching(v, ['^' + re.escape(removed) + r' is None$',
+                                               r'^.*\.options is None$', r'\.options is None$'])
         # `?` on a callee: residual Break edge
         q_edges = []
         for en in prims.edge_nodes_matching(v, [r'^Try::branch\(.*\) is Break$']):
@@ -181,7 +181,7 @@ def run(ctx):
                    r'^\(128 <= discr\(.*reason_code\) as u8\)$'],
                    r'^Option::Some\{0: OperationResponse::Publish\{0: PublishResponse::Qos2\{0: Qos2Response::Pubrec\{0: \w+(@Pubrec\.0)?\}\}\}\}$'),
         'Pubcomp': ('pending_publish_operations', [r'\.packet is Publish$', r'\.qos == QualityOfService::ExactlyOnce\{\}\)$',
-                    r'^Option::is_some\(.*\.qos2_pubrel\)$'],
+                    r'^.*\.qos2_pubrel is Some$'],
                     r'^Option::Some\{0: OperationResponse::Publish\{0: PublishResponse::Qos2\{0: Qos2Response::Pubcomp\{0: \w+(@Pubcomp\.0)?\}\}\}\}$'),
     }
     nsites = 0
